@@ -284,7 +284,14 @@ func (s *SessionStore) Remove(ctx context.Context, session *Session) {
 	s.mutex.Lock()
 	defer s.mutex.Unlock()
 
-	delete(s.sessions, s.GlobalSessionID(session.ID))
+	// Two participants leaving at the same time can both find the session
+	// empty: only the first removal may release the id and count.
+	globalID := s.GlobalSessionID(session.ID)
+	if registered, ok := s.sessions[globalID]; !ok || registered != session {
+		return
+	}
+
+	delete(s.sessions, globalID)
 	session.Close()
 
 	s.ids.Reuse(session.ID)
